@@ -14,6 +14,7 @@ CONSTANTS
   BufLens = {0, 1, 3, 7}
   EszVals = {0, 1, 2}
   AtomVals = {1, 2}
+  Scripts <- ScriptsNone
   WrapArm = FALSE
 ACTION_CONSTRAINT Emit
 CONSTRAINT EmitInit
